@@ -36,8 +36,9 @@ DJANGO_FUNCS = {"contains", "startswith", "endswith", "length", "indexof", "subs
 def profile():
     p = scalar.Profile()
     p.funcs = set(DJANGO_FUNCS)
-    p.columns = dict(scalar.SCHEMA, m="decimal")
-    p.types = {"int", "float", "str", "bool", "datetime", "decimal"}
+    p.columns = dict(scalar.SCHEMA, m="decimal", iv="duration")
+    p.types = {"int", "float", "str", "bool", "datetime", "decimal", "duration"}
+    p.duration_lits = scalar.IV_LITS
     p.neg = False
     p.neg_literal = False
     p.bool_cmp_atoms = False
@@ -74,8 +75,12 @@ def load(rows):
     con = django_env.connection()
     with con.cursor() as cur:
         cur.execute("DELETE FROM t")
-        cur.executemany("INSERT INTO t (id,a,b,c,s,u,d,flag,f,g,dd,m) VALUES (%s,%s,%s,%s,%s,%s,%s,%s,%s,%s,%s,%s)",
-                        [tuple(sqlite_env._adapt(_to_stored(r.get(k))) for k in sqlite_env.COLS) for r in rows])
+        import datetime as _dt
+        us = _dt.timedelta(microseconds=1)
+        cur.executemany("INSERT INTO t (id,a,b,c,s,u,d,flag,f,g,dd,m,iv) VALUES (%s,%s,%s,%s,%s,%s,%s,%s,%s,%s,%s,%s,%s)",
+                        [tuple(sqlite_env._adapt(_to_stored(r.get(k))) for k in sqlite_env.COLS) +
+                         (None if r.get("iv") is None else r["iv"] // us,)      # DurationField: microseconds
+                         for r in rows])
 
 
 def select(text, rows):
@@ -123,6 +128,25 @@ def run(ctx):
         p.datetime_lits = ["2020-01-01T00:00:00", "2019-12-31T23:59:59", "2021-06-15T12:30:45",
                            "2000-02-29T06:07:08", "2020-02-01T00:00:00", "2020-01-31T21:00:00"]
         p.date_lits = ["2020-01-01", "2019-12-31", "2021-06-15", "2000-02-29", "2020-02-01", "2020-01-31"]
+        # literals with an offset denote instants: the same instants as some stored values,
+        # written with Z / whole-hour / half-hour / quarter-hour offsets of both signs
+        from ..ref import odata_eval
+        odata_eval.LOCAL_ZONE = tz_mode()
+        aware = ["2020-01-01T06:00:00Z", "2020-01-01T11:30:00+05:30", "2020-01-01T02:30:00-03:30", "2020-01-01T05:30:00-00:30",
+                 "2020-01-01T08:00:00+02:00", "2019-12-31T20:30:00-09:30", "2020-01-01T11:45:00+05:45", "2020-01-01T04:00:00-02:00",
+                 "2021-06-15T17:30:45Z", "2021-06-15T14:00:45-03:30", "2020-02-01T03:00:00Z", "2020-01-31T23:30:00-03:30",
+                 "2020-01-01T06:30:00+00:30", "2020-01-01T06:00:00+00:00", "2020-01-01T06:00:00-00:00"]
+        d_, j = T.ident("d"), 0
+        for lit in aware:
+            for op in ("eq", "ne", "lt", "le", "gt", "ge"):
+                for t in (("cmp", op, d_, T.lit("datetime", lit)), ("cmp", op, T.lit("datetime", lit), d_),
+                          ("un", "not", ("cmp", op, d_, T.lit("datetime", lit))),
+                          ("cmp", op, T.call("hour", d_), T.call("hour", T.lit("datetime", lit))),
+                          ("cmp", "in", d_, T.lst(T.lit("datetime", lit), T.lit("datetime", aware[(j + 3) % len(aware)])))):
+                    j += 1
+                    SC.judge(ctx, t, rng, select, findings.django_semantic_triggers, "tz-aware-literals", cap=200,
+                             extra_case=case_extra, profile=p, domain=dom)
+        p.datetime_lits = p.datetime_lits + aware[:8]
         ctx.cls("django-config:USE_TZ=%s" % tz_mode())
         # dates as bounds of date(<field>), every comparator, both sides
         for j, op in enumerate(("eq", "ne", "lt", "le", "gt", "ge")):
@@ -141,6 +165,12 @@ def run(ctx):
                      domain=dom)
     if not tz_mode():
         SC.math_of_int_lane(ctx, ctx.rng("mathint"), select, findings.django_semantic_triggers, extra_case=case_extra, profile=p)
+        SC.interval_lane(ctx, ctx.rng("interval"), select, findings.django_semantic_triggers, extra_case=case_extra, profile=p)
+        # (comparisons, groups and negations as operands of eq / ne: only in this directed lane -
+        # the random generator keeps them out because of the listed right-hand-lookup finding)
+        p_ops = profile()
+        p_ops.bool_cmp_atoms = True
+        SC.bool_operand_lane(ctx, ctx.rng("boolops"), select, findings.django_semantic_triggers, extra_case=case_extra, profile=p_ops)
         SC.math_of_literal_lane(ctx, ctx.rng("mathlit"), select, findings.django_semantic_triggers, extra_case=case_extra, profile=p)
         SC.neutral_boolean_lane(ctx, ctx.rng("neutral"), select, findings.django_semantic_triggers, extra_case=case_extra, profile=p)
         SC.bracket_string_lane(ctx, ctx.rng("brackets"), select, findings.django_semantic_triggers, extra_case=case_extra, profile=p)
@@ -192,6 +222,8 @@ def replay(ctx, case):
     dom = None
     if tz_mode():
         import datetime as dt
+        from ..ref import odata_eval
+        odata_eval.LOCAL_ZONE = tz_mode()
         from ..gen import rows as RW
         dom = dict(RW.DOMAIN, d=[None, dt.datetime(2020, 1, 1, 0, 0, 0), dt.datetime(2019, 12, 31, 23, 59, 59),
                                  dt.datetime(2021, 6, 15, 12, 30, 45), dt.datetime(2000, 2, 29, 6, 7, 8),
